@@ -167,9 +167,12 @@ Definition hc_is_post (c : hc_cfg) : bool := String.eqb (hc_method c) "POST".
 Definition hc_body (c : hc_cfg) (q : hc_req) : string :=
   (hc_vary_part c q ++ (if hc_is_post c then "#" ++ hq_body q else ""))%string.
 
-(** [fx8]: candidate repair — responses with a Vary header and responses to POST are not stored *)
+(** [fx8]: candidate repair fixes/C11-F8.diff — responses that carry a Vary header and
+    responses to requests other than GET/HEAD are not stored, and only GET/HEAD requests are looked up *)
 Definition hc_stores (fx8 : bool) (c : hc_cfg) : bool :=
   hc_cacheable c && negb (fx8 && (negb (is_nil (hc_vary c)) || hc_is_post c)).
+
+Definition hc_looks_up (fx8 : bool) (c : hc_cfg) : bool := negb (fx8 && hc_is_post c).
 
 Definition hc_result (c : hc_cfg) (q : hc_req) : result :=
   {| rs_sent := {| s_url := hc_url c; s_method := hc_method c; s_headers := []; s_cookies := []; s_auth := "";
@@ -179,6 +182,9 @@ Definition hc_result (c : hc_cfg) (q : hc_req) : result :=
 (** RoundTrip: the key is always looked up; a response is stored when cacheable *)
 Definition hc_exec (fx8 : bool) (H : string -> string) (c : hc_cfg) (cch : cache) (q : hc_req) : sres * cache :=
   let k := hc_key H c in
+  if negb (hc_looks_up fx8 c)
+  then ({| sr_key := None; sr_hit := false; sr_calls := 1; sr_out := OAllow (hc_result c q) |}, cch)
+  else
   match lookup k cch with
   | Some r => ({| sr_key := Some k; sr_hit := true; sr_calls := 0; sr_out := OAllow r |}, cch)
   | None => ({| sr_key := Some k; sr_hit := false; sr_calls := 1; sr_out := OAllow (hc_result c q) |},
